@@ -229,7 +229,7 @@ func c07Run(ctx *core.Ctx) {
 	runAll := func(exprs []model.Expr, label string, allVariants bool) {
 		for _, e := range exprs {
 			for di, dst := range dsts {
-				for _, style := range []string{"expr", "raw"} {
+				for _, style := range []string{"expr", "raw", "val"} {
 					for _, user := range []bool{true, false} {
 						if !allVariants && (di+len(style))%2 == 0 && !user {
 							continue
@@ -382,7 +382,7 @@ func init() {
 	core.Register(&core.Check{
 		ID:    "C07",
 		Level: "model_checking",
-		Rule: "case = (index shape, destination, expression tree, construction style Expr/raw list, default or user context). All well-typed trees of depth <= 2 over 11 leaves (columns and constants of every type incl. nil), 19 unary and 14 binary function/type pairs, " +
+		Rule: "case = (index shape, destination, expression tree, construction style Expr / raw list / Val-wrapped leaves, default or user context). All well-typed trees of depth <= 2 over 11 leaves (columns and constants of every type incl. nil), 19 unary and 14 binary function/type pairs, " +
 			"(thorough: depth 3 over a reduced alphabet), n-ary calls with 3-4 arguments, each with 4 destinations (new, source column, other columns); plus invalid trees obtained by single mutations (unknown function/column, wrong operand type at every argument position, zero arguments, non-string operator) and illegal destination names. " +
 			"Non-trivial = the model accepts the expression; distinct by (dst, expression text, style, context).",
 		Assumptions: []string{
